@@ -77,8 +77,13 @@ def mk_history(r, contract):
     if r['play'] is None:
         return None
     h = PlayingHistory(contract)
+    watched = (len(r['auction']) + len(r['play'])) % 2 == 0
     for i, (leader, cards) in enumerate(r['play']):
         h.record(i + 1, TrickHistory(be.SEAT[leader], tuple(be.CARD[c] for c in cards)))
+        if watched and i % 3 == 0:
+            # the history object of a real board is looked at while the play goes on (a display, a progress log): what is
+            # written later is the history as it stands when it is written
+            h.history  # noqa
     return h
 
 
